@@ -62,10 +62,12 @@ SPEC_FUEL = 400
 #       harness and Python specification only:
 #       | ("K2", body) capture printed twice | ("M", body, called) a macro (and a call of it)
 #       | ("F", n, body) {% for i in (1..n) %} | ("V",) {{ i }}
+#       | ("N+",) {% increment n %} | ("N-",) {% decrement n %} | ("CY",) {% cycle 'a', 'b' %} | ("NV",) {{ n }}
 #       | ("I", template name) | ("N", template name) | ("C", template name)   include / render tag / a macro that renders
 #         the template, called on the spot: harness and Python specification only
 
 
+STATEFUL_SRC = {"N+": "{% increment n %}", "N-": "{% decrement n %}", "CY": "{% cycle 'a', 'b' %}", "NV": "{{ n }}"}
 WRAP_SRC = {
     "if": ("{% if true %}", "{% endif %}"),
     "for": ("{% for i in (1..1) %}", "{% endfor %}"),
@@ -168,6 +170,8 @@ def to_src(items: Iterable[tuple], data: dict | None = None, ae: bool = False) -
             out.append("{% for i in (1.." + str(it[1]) + ") %}" + to_src(it[2], data, ae) + "{% endfor %}")
         elif it[0] == "V":
             out.append("{{ i }}")
+        elif it[0] in STATEFUL_SRC:
+            out.append(STATEFUL_SRC[it[0]])
         elif it[0] == "I":
             out.append("{% include '" + it[1] + "' %}")
         elif it[0] == "N":
@@ -580,7 +584,7 @@ def is_blank(items: list) -> bool:
 
 
 def pyspec(tpls: dict[str, list], name: str, _depth: int = 0, suppress: bool = True,
-           include_shares_stacks: bool = False) -> tuple | None:
+           include_shares_stacks: bool = False, state: dict | None = None) -> tuple | None:
     """Root parent's text, every block replaced by the first definition found
     walking leaf -> root, super = next definition; None if the unfolding does
     not terminate.  Written without stacks, contexts or limits."""
@@ -622,6 +626,9 @@ def pyspec(tpls: dict[str, list], name: str, _depth: int = 0, suppress: bool = T
             return out
 
         ivar: list[int] = []
+        # the counters and cycles of the page: one state for the whole render, blocks, overrides and
+        # supers included; {% render %} and macro calls start afresh, {% include %} continues
+        st = state if state is not None else {"n": None, "cy": 0}
 
         def body(items: list, sup: list, depth: int) -> str:
             text = render(items, sup, depth)
@@ -661,13 +668,25 @@ def pyspec(tpls: dict[str, list], name: str, _depth: int = 0, suppress: bool = T
                         out.append("" if suppress and is_blank(it[2]) else part)
                 elif it[0] == "V":
                     out.append(str(ivar[-1]) if ivar else "")
+                elif it[0] == "N+":
+                    out.append(str(st["n"] or 0))
+                    st["n"] = (st["n"] or 0) + 1
+                elif it[0] == "N-":
+                    st["n"] = (st["n"] or 0) - 1
+                    out.append(str(st["n"]))
+                elif it[0] == "CY":
+                    out.append("ab"[st["cy"] % 2])
+                    st["cy"] += 1
+                elif it[0] == "NV":
+                    out.append("" if st["n"] is None else str(st["n"]))
                 elif (it[0] == "I" and include_shares_stacks and it[1] in tpls
                       and not any(x[0] == "E" for x in _walk(tpls[it[1]]))):
                     # the recorded alternative: an included template without extends resolves its
                     # blocks against the block stacks of the chain it is included from
                     out.append(render(tpls[it[1]], [], depth + 1))
                 elif it[0] in ("I", "N", "C"):
-                    sub = pyspec(tpls, it[1], _depth + depth + 1, suppress, include_shares_stacks)
+                    sub = pyspec(tpls, it[1], _depth + depth + 1, suppress, include_shares_stacks,
+                                 st if it[0] == "I" else None)
                     if sub is None:
                         raise Diverges
                     if sub[0] == "err":
@@ -956,6 +975,25 @@ def extra_cases() -> list[tuple[dict, tuple, int]]:
                 for st2 in states:
                     out.append(({"t0": root, "t1": [("E", "t0")] + over(1, st1), "t2": [("E", "t1")] + over(2, st2)},
                                 ("direct", "t2"), 30))
+    # stateful tags inside blocks: the block is part of the page (fix 6f30153) - counters and cycles
+    # continue into the block, through overrides and supers, and on after it
+    bodies = [[("CY",), ("N+",)], [("T", "r"), ("N-",)], [("CY",), ("T", "."), ("CY",)]]
+
+    def sover(i: int, st_: str) -> list:
+        if st_ == "O":
+            return []
+        own = [("T", "o" + str(i)), ("CY",), ("N+",)] if i % 2 else [("N-",), ("T", "o" + str(i))]
+        return [_b("b", own + ([("S",)] if st_ == "S" else []))]
+    for body in bodies:
+        for n in (1, 3):
+            root = [("N+",), ("T", "["), ("F", n, [_b("b", list(body)), ("T", ",")]), ("T", "|"), ("NV",), ("CY",), ("T", "]")]
+            for st1 in "ODS":
+                chains = [{"t0": root, "t1": [("E", "t0")] + sover(1, st1)}]
+                chains += [{"t0": root, "t1": [("E", "t0")] + sover(1, st1), "t2": [("E", "t1")] + sover(2, st2)} for st2 in "ODS"]
+                for t in chains:
+                    leaf = f"t{len(t) - 1}"
+                    for entry in (("direct", leaf), ("wrap", [(False, leaf)]), ("wrap", [(True, leaf)])):
+                        out.append((t, entry, 30))
     # a loop inside a block that a super renders, and nested loops
     out.append(({"t0": [("T", "["), _b("a", [("F", 2, [("T", "r"), ("V",), _b("b", [("T", "b"), ("V",)])])]), ("T", "]")],
                  "t1": [("E", "t0"), _b("b", [("T", "B"), ("S",)]), _b("a", [("T", "A"), ("S",), ("S",)])]}, ("direct", "t1"), 30))
@@ -1363,6 +1401,9 @@ STATEFUL_BASE = ("{% for i in (1..3) %}{% block b %}{% cycle 'a','b' %}{% increm
                  "{{ i }}{% endfor %}{% endblock %}")
 
 
+STATEFUL_PAGE = "a0b1a2|31234"
+
+
 def observe_stateful() -> tuple | None:
     """(pages of the base on its own, pages through a leaf that extends it), each sync and async."""
     from liquid2 import DictLoader, Environment
@@ -1397,6 +1438,21 @@ def main(chk: C.Check, build: C.Build) -> None:
     proofs_ok = C.proof_stage(chk, build, NEEDED)
     thorough = chk.tier == "thorough"
     r = C.rng("c08")
+
+    # recorded witness of the fixed finding (6f30153): stateful tags inside a block continue the page's
+    # state when the block is rendered through a chain.  Raw Liquid source (stateful tags are outside the
+    # Coq model): the base on its own and through a leaf that overrides nothing must give the same,
+    # continuing, page.
+    stateful = observe_stateful()
+    if stateful is not None:
+        direct, through = stateful
+        want = (STATEFUL_PAGE, STATEFUL_PAGE)
+        if direct != want or through != want:
+            # fixed by 6f30153: listed as `fixed`, which suppresses nothing - a regression is a violation
+            chk.finding("stateful-tags-in-a-block-lose-their-state-through-a-chain",
+                        f"base {STATEFUL_BASE!r} must render {STATEFUL_PAGE!r} on its own and through {{% extends %}} from a "
+                        f"leaf that overrides nothing (sync, async); it renders {direct} on its own and {through} through the chain",
+                        {"base": STATEFUL_BASE, "expected": STATEFUL_PAGE, "direct": direct, "through_extends": through})
 
     cases: list[tuple] = (list(CORPUS) + [c + (False,) for c in CORPUS[:12]] + BLANK_CORPUS
                           + [c + (False,) for c in BLANK_CORPUS] + deep_cases() + [W30, WREC])
@@ -1696,19 +1752,6 @@ def main(chk: C.Check, build: C.Build) -> None:
                         else "oracle:included-partial-resolves-to-neither-definition",
                         f"a block-bearing template that does not extend, rendered from inside a chain: implementation "
                         f"gave {o}, its own definitions give {exp}", replay)
-
-    # known finding: stateful tags inside a block lose their state when the block is rendered through a
-    # chain (the block-scoped copy of the render context starts with empty counters / tag namespace).
-    # The witness is a raw Liquid source (stateful tags are outside the model): a base rendered on its
-    # own and through a leaf that overrides nothing must give the same page.
-    stateful = observe_stateful()
-    if stateful is not None:
-        direct, through = stateful
-        if direct != through:
-            chk.finding("stateful-tags-in-a-block-lose-their-state-through-a-chain",
-                        f"base {STATEFUL_BASE!r} renders {direct} on its own and {through} through {{% extends %}} "
-                        f"from a leaf that overrides nothing",
-                        {"base": STATEFUL_BASE, "direct": direct, "through_extends": through})
 
     C.correspond(chk, "c08", IMPORTS, DEFS + "\n" + "\n".join(interned.defs), items,
                  what="Inherit.render_name/run_wrapper and spec_inherit", shard=400)
